@@ -56,3 +56,24 @@ Proof.
 Qed.
 Lemma tv_index_str_iter es k v : NoDup (map fst es) -> In (k, v) es -> tv_index_str k (VTab es) = Some v.
 Proof. intros. cbn. apply tv_map_get_iter; assumption. Qed.
+
+(* ---- double-ended reading (map.rs delegate_iterator!: next / next_back on one iterator) ----------------------------
+   alternating next() / next_back() hands out every entry exactly once: the sequence read is a permutation of the
+   forward sequence (and its first element is the first entry) *)
+Require Import Permutation.
+Lemma alternate_perm fuel (l : list bytes) : List.length l < fuel -> Permutation (alternate fuel l) l.
+Proof.
+  revert l. induction fuel as [|f IH]; intros l Hl; [lia|].
+  destruct l as [|x tl]; [constructor|]. cbn [alternate].
+  destruct (rev tl) as [|y rtl] eqn:E.
+  - assert (tl = []) as -> by (apply (f_equal (@rev bytes)) in E; rewrite rev_involutive in E; exact E). constructor. constructor.
+  - assert (Htl : tl = rev rtl ++ [y]) by (apply (f_equal (@rev bytes)) in E; rewrite rev_involutive in E; cbn in E; exact E).
+    subst tl. constructor.
+    apply Permutation_trans with (y :: rev rtl); [|apply Permutation_cons_append].
+    constructor. apply IH. cbn [List.length] in Hl. rewrite app_length in Hl. cbn in Hl. lia.
+Qed.
+Lemma alternate_reads_all (l : list bytes) : Permutation (alternate (S (List.length l)) l) l.
+Proof. apply alternate_perm. lia. Qed.
+Lemma back_is_reverse (es : list (bytes * tomlval)) :
+  rev (rev (List.map fst es)) = List.map fst es.
+Proof. apply rev_involutive. Qed.
